@@ -12,6 +12,8 @@ NOTE = ("Lean 4.33 kernel, axioms propext/Classical.choice/Quot.sound only (audi
 # id -> (claim text, DESIGN section, technique)
 claimed = {
  "C01": ("Lean theorems over the streaming-parser model: token-stream recursion = tree fold for every tree, option set and continuation; the fold equals the declarative conventions on the domain (one non-blank text run per element) up to map-entry order; model tied to xmlToMapParser by correspondence on generated documents under all option combinations and four entry points; conventions spec also evaluated directly against the implementation", "7 C01"),
+ "C05": ("Lean theorems over the regenerated escape table: escapeChars is a single pass (C05_escape_single_pass), unescape(escape s) = s for every string, escaped text has no raw special character, every '&' opens one of the five entities, no ']]>', decoder-mode fixed point; escapeChars tied by correspondence (hook) and its output fed to the real tokenizer in element and attribute position; model of the tokenizer's entity expansion sampled against encoding/xml; encoder-level clauses (four encoders x escaping modes x validity check) by implementation oracles", "7 C05"),
+ "C14": ("Lean theorems: the decision chain of cast branch by branch, never NaN/Inf unless CastNanInf for ANY strconv (C14_no_naninf), un-cast decoding yields only string leaves, decoding with the cast flag is related leaf-wise (CastRel) to decoding without it for every token stream (C14_structure); unit-level and document-level correspondence, exhaustive special spellings x option combinations", "7 C14"),
  "C07": ("Lean theorems: the walker and the look-ahead index wrapper return exactly the frontier denotation of a plain/wildcard/indexed path (C07_walk_is_denotation, C07_indexed_is_denotation, C07_path_is_denotation), ValueForPath/Exists consistency; model tied to keyvalues.go by correspondence, denotation also evaluated directly against the implementation", "7 C07"),
  "C08": ("Lean theorems: hasSubKeys is the documented predicate, sub-keys only filter, ValuesForKey = values stored under the key at any depth, PathsForKey = the distinct dot-paths ending in the key, shortest is minimal, values through the paths = ValuesForKey (on Maps without list-in-list); correspondence + direct oracles; one known finding (list directly inside list)", "7 C08"),
  "C09": ("Lean theorems: one leaf per scalar for any keys, LeafNodes = rendered segment paths (no-attribute view = attribute entries removed, text-key segment dropped), projections, every leaf path parses back and denotes exactly its value (C09_resolves_spec, through the C07 specification); correspondence + direct resolution oracle on the implementation", "7 C09"),
